@@ -272,10 +272,15 @@ OpAddFact(mr, mw, ro, op) ==
 RemOutcomes(m, id) ==
   IF id \in DOMAIN m THEN {StateRem(m, id)} ELSE {StateRem(m, id), m}
 
+\* With cron hooks installed on the state (always, through sys.System) an explicit
+\* removal first looks the id up; removing an id that is not there reports not-found.
+HookMiss(m, now, op, id) == op.hooked /\ id \notin Vis(m, now)
+
 OpRemFact(mr, mw, ro, op) ==
   LET l == op.loc  now == op.now
       g == Gate(<<GEnabled(mr[l], now), GWrite(mr[l], now, ro[l], op.wk)>>)
   IN IF g # "ok" THEN {Out(mw, ro, Resp(g))}
+     ELSE IF HookMiss(mr[l], now, op, op.id) THEN {Out(mw, ro, Resp("notfound"))}
      ELSE {Out(SetLoc(mw, l, m2), ro, [R0 EXCEPT !.id = op.id]) : m2 \in RemOutcomes(mw[l], op.id)}
 
 OpGetFact(mr, mw, ro, op) ==
@@ -318,6 +323,7 @@ OpRemRule(mr, mw, ro, op) ==
       flag == PropId(op.id, "disabled")
       unflag(m) == IF flag \in Vis(m, now) THEN StateRem(m, flag) ELSE m
   IN IF g # "ok" THEN {Out(mw, ro, Resp(g))}
+     ELSE IF HookMiss(mr[l], now, op, op.id) THEN {Out(mw, ro, Resp("notfound"))}
      ELSE {Out(SetLoc(mw, l, unflag(m2)), ro, [R0 EXCEPT !.id = op.id]) : m2 \in RemOutcomes(mw[l], op.id)}
 
 OpGetRule(mr, mw, ro, op) ==
@@ -334,6 +340,7 @@ OpEnableRule(mr, mw, ro, op) ==
       flag == PropId(op.id, "disabled")
       a == StateAdd(mw[l], "", "", PropFact(op.id, "disabled", BoolV(TRUE)), now)
   IN IF g # "ok" THEN {Out(mw, ro, Resp(g))}
+     ELSE IF op.flag /\ HookMiss(mr[l], now, op, flag) THEN {Out(mw, ro, Resp("notfound"))}
      ELSE IF op.flag THEN {Out(SetLoc(mw, l, m2), ro, R0) : m2 \in RemOutcomes(mw[l], flag)}
      ELSE {Out(SetLoc(mw, l, a.m), ro, R0)}
 
